@@ -10,6 +10,8 @@ from engine.loader import AnalysisError
 ALLOWED_CONE_WRITES = {
     ('_DEFERRED_DISPATCH_BY_NAME', 'is_registered', 'pop'):
         'deferred->live promotion: a move whose result does not depend on when it happens (C15.d)',
+    ('pretty_dispatch', 'is_registered', 'register'):
+        'deferred->live promotion done by the lookup itself: registers the printer the user supplied for that class (C15.d)',
     ('_DEFERRED_DISPATCH_BY_NAME', 'register_pretty.<locals>.decorator', 'pop'):
         'a direct registration drops an older pending registration by name for the same class (after publishing; C15.i)',
     ('pretty_dispatch', 'register_pretty.<locals>.decorator', 'register'):
@@ -306,6 +308,13 @@ def check_write_inventory(repo, rep, rule):
         owners_ = {k_[1] for k_ in ALLOWED_CONE_WRITES}
         acting_for = owners_of(repo, s.fn, owners_)
         reasons_ = [ALLOWED_CONE_WRITES.get((_canonical(repo, s.obj.name), o_, s.detail)) for o_ in sorted(acting_for)]
+        # a registration helper shared by the decorator and the promoting lookup: its by-name and by-predicate branches are the
+        # decorator's; which branch a promotion takes (and that lookups leave the registries as the rule says) is decided on the
+        # interpreted histories of the registry model (C15.b / C15.d / C15.i), not by who contains the statement
+        DECO = 'register_pretty.<locals>.decorator'
+        if DECO in acting_for and s.fn.qualname not in owners_:
+            via_deco = ALLOWED_CONE_WRITES.get((_canonical(repo, s.obj.name), DECO, s.detail))
+            reasons_ = [r_ if r_ is not None else via_deco for r_ in reasons_]
         reason = '; '.join(sorted(set(reasons_))) if all(r_ is not None for r_ in reasons_) else None
         rep.check(reason is not None, rule, 'cone-write:%s:%s:%s' % key, s.where,
                   reason or '',
